@@ -120,7 +120,15 @@ def gen_set(rnd, n):
 def dominance_pair(rnd, basic=False):
     """Two rules that both match everything in the pool that contains the word; exactly one level decides."""
     w = rnd.choice(['UBER', 'NETFLIX', 'COSTCO', 'STAR'])
-    level = rnd.choice(['priority', 'patterns', 'kinds', 'length'] + ([] if basic else ['kinds-vs-long-text', 'patterns-vs-many-kinds', 'length-non-ascii', 'single-kind', 'single-kind']))
+    level = rnd.choice(['priority', 'patterns', 'kinds', 'length'] + ([] if basic else ['kinds-vs-long-text', 'patterns-vs-many-kinds', 'length-non-ascii', 'single-kind', 'single-kind', 'length-mixed-quotes']))
+    if level == 'length-mixed-quotes':
+        # pattern text counts whichever quotes it is written in, also when one condition uses both kinds
+        a, b = w[:2], w[2:] + ' STORE 42'
+        hi = R.Rule('HI', rnd.choice(['contains("%s") and contains(\'%s\')', 'contains(\'%s\') and contains("%s")']) % ((a, b) if rnd.random() < .5 else (b, a)), 'Hi', 'HiSub')
+        lo = R.Rule('LO', 'contains("%s") and contains("%s")' % (w, 'STO'), 'Lo', 'LoSub')
+        rules = [hi, lo]
+        rnd.shuffle(rules)
+        return R.RuleFile(variables=list(PREAMBLE), rules=rules), level, w
     if level == 'single-kind':
         # ONE constraint of one kind (each of amount, month, year, day, date, source, field in turn) outranks a longer pattern without any
         kind = rnd.choice(sorted(CONSTRAINTS))
@@ -291,6 +299,46 @@ def judge_dominance(rec, rnd, tmp):
     rec.interesting(['dom', level, w, rf.rules[0].name])
 
 
+def judge_variable_sequence(rec, rnd):
+    """One engine, several transactions: a top-level variable that has no value for SOME transactions (a statement without that column) makes the
+    rule that reads it unusable for those only; for the next transaction that has the column the more specific rule wins again."""
+    w = rnd.choice(['UBER', 'NETFLIX', 'COSTCO', 'STAR'])
+    var = rnd.choice([('ref', 'extract(field.memo, "REF:(\\\\d+)")', 'len(ref) >= 0'), ('who', 'field.code', 'who != "zz"'), ('memo_up', 'uppercase(field.memo)', 'memo_up != "ZZ"')])
+    rf = R.RuleFile(variables=list(PREAMBLE) + [(var[0], var[1])],
+                    rules=[R.Rule('HI', 'contains("%s") and %s and amount > -1e12' % (w, var[2]), 'Hi', 'HiSub', tags=['hi']), R.Rule('LO', 'contains("%s")' % w, 'Lo', 'LoSub')])
+    rnd.shuffle(rf.rules)
+    mode = rnd.choice(['most_specific', 'most_specific', 'first_match'])
+    eng = O.load_engine(R.render(rf), mode)
+    seq = []
+    for k in range(rnd.randint(2, 5)):
+        t = world.txn(rnd, desc='%s STORE %d' % (w, k))
+        t['date'] = t.get('date') or world.DATES[0]
+        t['field'] = None if (k == 0 or rnd.random() < .4) else {'memo': 'REF:%d' % k, 'code': 'c%d' % k}
+        seq.append(t)
+    if all(t['field'] is None for t in seq):
+        seq[-1]['field'] = {'memo': 'REF:9', 'code': 'c'}
+    rec.count('variable_sequences')
+    case = {'kind': 'varseq'}
+    for k, t in enumerate(seq):
+        rec.case()
+        try:
+            obs = O.engine_result(eng, t, {})
+        except O.ImplError as e:
+            rec.violation('impl-raises:' + type(e.exc).__name__, str(e)[:300], case)
+            return
+        if t['field'] is None:
+            want = ('Lo', 'LoSub')
+        elif mode == 'most_specific':
+            want = ('Hi', 'HiSub')
+        else:
+            want = ('Hi', 'HiSub') if rf.rules[0].name == 'HI' else ('Lo', 'LoSub')
+        rec.count('variable_sequence_checks')
+        if obs['raw'][1:] != want:
+            rec.violation('ranking-depends-on-earlier-transactions', f'{mode}, one engine, variable `{var[0]} = {var[1]}`: transaction #{k} (custom fields: {t["field"]}) after '
+                          f'{[bool(x["field"]) for x in seq[:k]]} got {obs["raw"]}, expected {want}', case)
+            return
+
+
 def judge_rule_mode_setting(rec, tmp, rnd):
     """load_config: rule_mode is validated and handed to the engine; an invalid value falls back to first_match with a warning."""
     from tally.config_loader import load_config
@@ -338,6 +386,7 @@ def run(rec, shard, nshards, t):
                 rec.sample({'rules_file': R.render(rf), 'ranks': {r.name: list(R.specificity_ref(r)) for r in rf.rules}})
         for _ in range((200 if t == 'quick' else 4000) // nshards):
             judge_dominance(rec, rnd, tmp)
+            judge_variable_sequence(rec, rnd)
         for _ in range(2 if t == 'quick' else 10):
             judge_rule_mode_setting(rec, tmp, rnd)
     finally:
@@ -352,6 +401,9 @@ def replay(rec, case):
         if case['kind'] == 'mode':
             for _ in range(5):
                 judge_rule_mode_setting(rec, tmp, rnd)
+        elif case['kind'] == 'varseq':
+            for _ in range(60):
+                judge_variable_sequence(rec, rnd)
         else:
             judge_set(rec, R.RuleFile.from_json(case['rf']), [O.untxn(x) for x in case['txns']], case['rows'], tmp, rnd, 5, 60)
     finally:
